@@ -228,6 +228,8 @@ def project_requests(case, rng):
     for j in range(6):
         q = G.gen_request(rng, spec, uid='u%d' % j)
         reqs.append({'kind': q['kind'], 'source': q['source'], 'position': q['position'], 'file': q['file']})
+    for q in G.cycle_requests(rng, spec)[:6]:
+        reqs.append(dict(q, multi=True))
     return reqs
 
 
